@@ -2495,7 +2495,7 @@ Lemma to_entry_S : forall f c busy n,
       let '(i, ei) := io KInput s_input input in
       let '(o, eo) := io KOutput s_output output in
       let r := match i, o with
-               | None, None => if action then None else Some (None, None)
+               | None, None => Some (None, None)
                | _, _ => Some (i, o)
                end in
       (Entry name KDir TSUnset TSUnset [] [] None [] None None (Some []) r, ei || eo)
@@ -2568,8 +2568,7 @@ Proof.
       * intros i' o' Hr. simpl in Hr.
         assert (Hgen : ns_free (io_or_empty true i) /\ ns_free (io_or_empty false o)).
         { split; [destruct i; [exact Hi | apply ns_free_empty_io] | destruct o; [exact Ho | apply ns_free_empty_io]]. }
-        destruct i as [xi |], o as [xo |]; try (inversion Hr; subst; exact Hgen).
-        destruct action; [discriminate |]. inversion Hr; subst. exact Hgen.
+        destruct i as [xi |], o as [xo |]; inversion Hr; subst; exact Hgen.
     + pose proof (HB c busy body) as H. destruct (body_dir f c busy body) as [d e]. simpl in *.
       apply ns_free_dir_node. exact H.
 Qed.
